@@ -97,7 +97,7 @@ def check(ctx):
     calls = [n for n in own_nodes(fr.node) if isinstance(n, ast.Call) and norm(n.func) == "self.function"]
     from ..dataflow import expanded_text
     ok = len(calls) == 1 and [expanded_text(fr.node, a) for a in calls[0].args] == ["self.state", "self.running_state", "self.dt"] and \
-        [norm(k.value) for k in calls[0].keywords] == ["dict(zip(self.names, self.values))"]
+        [expanded_text(fr.node, k.value) for k in calls[0].keywords] == ["dict(zip(self.names, self.values))"]
     ctx.ob("R11.1", "the update is called with (state, record buffer, dt, **values) and nothing else", ok,
            detail=[norm(c)[:160] for c in calls], where=fr.fq, construct="self.function(...) arguments", loc=loc(fr, calls[0]) if calls else "",
            message="the update receives extra arguments", consequence="recording configuration leaks into the physics update")
@@ -193,8 +193,18 @@ def observers(ctx):
             muts.append(f"L{n.lineno}: {norm(n)}")
         if isinstance(n, ast.AugAssign) and norm(n.target).startswith("self.values"):
             muts.append(f"L{n.lineno}: {norm(n)}")
-    ss = repo.module(RUNNER).functions.get("Runner._run_stage.save_step")
-    fresh = ss is not None and any(isinstance(n, ast.Assign) and norm(n.value) == "dict(zip(self.names, self.values))" for n in own_nodes(ss.node))
+    # every frame handed to the writer is a dict built at the save (closure of today's tree, or its body read at the call site)
+    def _fresh_dict(e):
+        return isinstance(e, (ast.Dict, ast.DictComp)) or (isinstance(e, ast.Call) and norm(e.func) == "dict")
+    handed = [c for c in ast.walk(frs.node) if isinstance(c, ast.Call) and norm(c.func) == "self.data_handler.save_time_step"]
+    fresh = bool(handed)
+    for c in handed:
+        a = c.args[1] if len(c.args) > 1 else next((k.value for k in c.keywords if k.arg == "data"), None)
+        if isinstance(a, ast.Name):
+            defs = [n.value for n in ast.walk(frs.node) if isinstance(n, ast.Assign) and any(isinstance(t, ast.Name) and t.id == a.id for t in n.targets)]
+            fresh = fresh and bool(defs) and all(_fresh_dict(d) for d in defs)
+        else:
+            fresh = fresh and a is not None and _fresh_dict(a)
     ctx.ob("R11.2", "self.values is only ever rebound; the dict handed to the writer is built fresh", not muts and fresh, detail=muts,
            where=frs.fq, construct="self.values mutation", message=f"self.values mutated in place: {muts}",
            consequence="the writer can alias and alter the state of the next step")
@@ -235,42 +245,45 @@ def observers(ctx):
 
 
 def resume(ctx):
+    """R11.4 over what Runner(...) receives in each of the 32 scenarios of pvs/tables.py (however solve() builds its tables)."""
     repo = ctx.repo
     fs = repo.func(SOLVER, "TDGLSolver.solve")
-    from ..dataflow import expanded_text
-    # locals identified by role: the state table is what Runner(names=list(<table>)) receives, the list of constant inputs is
-    # what Runner(fixed_names=tuple(<list>)) receives
-    pname = fnames = None
-    for n in own_nodes(fs.node):
-        if isinstance(n, ast.Call):
-            for k in n.keywords:
-                inner = [x.id for x in ast.walk(k.value) if isinstance(x, ast.Name) and x.id not in ("list", "tuple")]
-                if k.arg == "names" and len(inner) == 1:
-                    pname = inner[0]
-                if k.arg == "fixed_names" and len(inner) == 1:
-                    fnames = inner[0]
-    if pname is None or fnames is None:
-        raise AnalysisError("solve() no longer hands Runner(names=list(<table>), fixed_names=tuple(<list>))")
-    dicts = [n for n in own_nodes(fs.node) if isinstance(n, ast.Assign) and norm(n.targets[0]) == pname and isinstance(n.value, ast.Dict)]
-    keys = [[k.value for k in d.value.keys] for d in dicts]
-    ctx.ob("R11.4", "fresh-start and seed tables have the same keys in the same order", keys[0] == keys[1], detail=keys, where=fs.fq,
-           construct="parameters tables", loc=loc(fs, dicts[0]), message=f"fresh {keys[0]} vs seed {keys[1]}",
-           consequence="a resumed run starts from a state missing a field (e.g. the induced potential)")
-    seed = dicts[1].value
-    bad = [f"{k.value}: {expanded_text(fs.node, v)}" for k, v in zip(seed.keys, seed.values)
-           if expanded_text(fs.node, v) not in (f"self.seed_solution.tdgl_data.{k.value}", f"seed_solution.tdgl_data.{k.value}")]
-    ctx.ob("R11.4", "every seed value is the same-named field of seed_solution.tdgl_data", not bad,
-           detail={"mismatched": bad}, where=fs.fq, construct="seed values", loc=loc(fs, dicts[1]),
-           message=f"seed table mismatches: {bad}", consequence="a resumed run swaps fields (e.g. normal current for supercurrent)")
     fu = repo.func(SOLVER, "TDGLSolver.update")
+    from ..tables import runner_arguments, SEED
+    runs = runner_arguments(repo)
+    ctx.note("runner_argument_scenarios", len(runs))
+    key = lambda sc: tuple(v for k, v in sorted(sc.items()) if k != "seed")
+    fresh = {key(sc): t for sc, t in runs if not sc["seed"]}
+    seeded = {key(sc): t for sc, t in runs if sc["seed"]}
+    diff = [f"{k}: fresh {fresh[k]['names']} vs seed {seeded[k]['names']}" for k in fresh if fresh[k]["names"] != seeded[k]["names"]
+            or fresh[k]["fixed_names"] != seeded[k]["fixed_names"]]
+    ctx.ob("R11.4", "fresh-start and seed tables have the same keys in the same order", not diff, detail=diff[:4], where=fs.fq,
+           construct="parameters tables", loc=loc(fs, fs.node), message=f"{diff[:1]}",
+           consequence="a resumed run starts from a state missing a field (e.g. the induced potential)")
+    drives = {"applied_vector_potential": "self.current_A_applied", "epsilon": "self.epsilon"}
+    bad = set()
+    for sc, t in runs:
+        if not sc["seed"]:
+            continue
+        for n, v in zip(t["names"], t["values"]):
+            if n not in drives and v != f"{SEED}.tdgl_data.{n}":
+                bad.add(f"{n}: {v.replace(SEED, 'seed_solution')}")
+    ctx.ob("R11.4", "every seed value is the same-named field of seed_solution.tdgl_data", not bad,
+           detail={"mismatched": sorted(bad)}, where=fs.fq, construct="seed values", loc=loc(fs, fs.node),
+           message=f"seed table mismatches: {sorted(bad)}", consequence="a resumed run swaps fields (e.g. normal current for supercurrent)")
     kwonly = [a.arg for a in fu.node.args.kwonlyargs]
-    extra = [norm(n.targets[0].slice) for n in own_nodes(fs.node) if isinstance(n, ast.Assign) and isinstance(n.targets[0], ast.Subscript)
-             and norm(n.targets[0].value) == pname and isinstance(n.targets[0].slice, ast.Constant)]
-    fixed = [n.args[0].value for n in own_nodes(fs.node) if isinstance(n, ast.Call) and norm(n.func) == f"{fnames}.append"
-             and isinstance(n.args[0], ast.Constant)]
-    dyn = sorted({e.strip("'") for e in extra})
-    ok = set(kwonly) == set(keys[0]) | set(dyn) and set(fixed) == set(dyn)
-    ctx.ob("R11.4", "update()'s keyword parameters == table keys + {applied_vector_potential, epsilon} (dynamic) ", ok,
-           detail={"update_kwonly": kwonly, "table": keys[0], "dynamic": dyn, "fixed": fixed}, where=fu.fq,
-           construct="update signature vs state table", message=f"update takes {kwonly}; table supplies {keys[0]} + {dyn}",
+    bad = []
+    for sc, t in runs:
+        allnames = t["names"] + t["fixed_names"]
+        if sorted(allnames) != sorted(kwonly) or len(t["names"]) != len(t["values"]) or len(t["fixed_names"]) != len(t["fixed_values"]):
+            bad.append(f"{sc}: state {t['names']} + fixed {t['fixed_names']}")
+            continue
+        for flag, nm in (("dynamic_vector_potential", "applied_vector_potential"), ("dynamic_epsilon", "epsilon")):
+            where_ = t["names"] if sc[flag] else t["fixed_names"]
+            vals = t["values"] if sc[flag] else t["fixed_values"]
+            if nm not in where_ or vals[where_.index(nm)] != drives[nm]:
+                bad.append(f"{sc}: {nm} is not handed over as {drives[nm]} among the {'evolving' if sc[flag] else 'fixed'} values")
+    ctx.ob("R11.4", "update()'s keyword parameters == table keys + {applied_vector_potential, epsilon} (evolving when dynamic, else fixed)",
+           not bad, detail={"update_kwonly": kwonly, "mismatches": bad[:4]}, where=fu.fq,
+           construct="update signature vs state table", message=f"update takes {kwonly}; {bad[:1]}",
            consequence="part of the evolving state is not carried from step to step (or from the seed)")
